@@ -3,6 +3,7 @@ import YgmVerif.Props.DistComm
 import YgmVerif.Props.C13
 import YgmVerif.Props.C14
 import YgmVerif.Props.C15
+import YgmVerif.Props.C17
 /-!
 # C13 / C14 end to end over the joint messaging model
 
@@ -727,34 +728,34 @@ theorem comm_cbs_allowed {n : Nat} {nh : Nat → Nat → Nat} {c c' : Comm.St} {
   | recvEnd r => simp only [Comm.projB, BarrierME.run] at hB; rw [← Option.some.inj hB]
   | execBegin r uid =>
     simp only [Comm.projB, Comm.bRun_single, BarrierME.step] at hB
-  split at hB
-  · rw [← Option.some.inj hB]
-  · cases hB
+    split at hB
+    · rw [← Option.some.inj hB]
+    · cases hB
   | execEnd r uid =>
     simp only [Comm.projB, Comm.bRun_single, BarrierME.step] at hB
-  split at hB
-  · rw [← Option.some.inj hB]
-  · cases hB
+    split at hB
+    · rw [← Option.some.inj hB]
+    · cases hB
   | enter r =>
     simp only [Comm.projB, Comm.bRun_single, BarrierME.step] at hB
-  split at hB
-  · rw [← Option.some.inj hB]
-  · cases hB
+    split at hB
+    · rw [← Option.some.inj hB]
+    · cases hB
   | contribute r =>
     simp only [Comm.projB, Comm.bRun_single, BarrierME.step] at hB
-  split at hB
-  · rw [← Option.some.inj hB]
-  · cases hB
+    split at hB
+    · rw [← Option.some.inj hB]
+    · cases hB
   | result r =>
     simp only [Comm.projB, Comm.bRun_single, BarrierME.step] at hB
-  split at hB
-  · rw [← Option.some.inj hB]
-  · cases hB
+    split at hB
+    · rw [← Option.some.inj hB]
+    · cases hB
   | exit r =>
     simp only [Comm.projB, Comm.bRun_single, BarrierME.step] at hB
-  split at hB
-  · rw [← Option.some.inj hB]
-  · cases hB
+    split at hB
+    · rw [← Option.some.inj hB]
+    · cases hB
 
 theorem comm_cbs_async {n : Nat} {nh : Nat → Nat → Nat} {c c' : Comm.St} {r uid dest : Nat} {direct : Bool}
     (h : Comm.step n nh c (.async r uid dest direct) = some c') : c'.b.cbs = c.b.cbs := by
@@ -933,4 +934,753 @@ theorem run_jinv {P : Par} {S S' : St} (jls : List Label) (hi : JInv S) (h : run
     | none => rw [hst] at h; cases h
     | some S1 => rw [hst] at h; exact ih (step_jinv hi hst) h
 
+/-! ### what the history issued, rank by rank -/
+
+theorem run_ranks {P : Par} {S S' : St} (jls : List Label) (h : run P S jls = some S') :
+    (∀ p ∈ insList jls, p.1 < P.n) ∧ (∀ p ∈ sentList jls, p.1 < P.n) := by
+  induction jls generalizing S with
+  | nil => exact ⟨fun p hp => (List.not_mem_nil hp).elim, fun p hp => (List.not_mem_nil hp).elim⟩
+  | cons l jls ih =>
+    simp only [run] at h
+    cases hst : step P S l with
+    | none => rw [hst] at h; cases h
+    | some S1 =>
+      rw [hst] at h
+      obtain ⟨i1, i2⟩ := ih h
+      have hg := (step_some hst).1
+      unfold insList sentList at *
+      cases l <;> simp only [List.filterMap_cons, List.mem_cons] <;>
+        simp only [guard, Bool.and_eq_true, decide_eq_true_eq] at hg
+      all_goals first
+        | exact ⟨i1, i2⟩
+        | exact ⟨fun p hp => by rcases hp with rfl | hp; exact hg.1; exact i1 p hp, i2⟩
+        | exact ⟨i1, fun p hp => by rcases hp with rfl | hp; exact hg.1; exact i2 p hp⟩
+        | exact ⟨i1, fun p hp => by rcases hp with rfl | hp; exact hg.1.1; exact i2 p hp⟩
+
+/-- **the messages emitted by the caches are the asyncs of `Comm`**: the messages the joint history issues in `Comm` are
+exactly the packed messages, each addressed point-to-point to the owner of its key -/
+theorem issued_projC {P : Par} {S S' : St} (jls : List Label) (h : run P S jls = some S') :
+    (jls.flatMap (projC P)).flatMap Comm.issued =
+      (sentList jls).map (fun p => (p.2, P.owner (P.opOf p.2).key, false)) := by
+  induction jls generalizing S with
+  | nil => rfl
+  | cons l jls ih =>
+    simp only [run] at h
+    cases hst : step P S l with
+    | none => rw [hst] at h; cases h
+    | some S1 =>
+      rw [hst] at h
+      have := ih h
+      have hg := (step_some hst).1
+      rw [List.flatMap_cons, List.flatMap_append, this]
+      unfold sentList
+      cases l with
+      | comm l0 =>
+        simp only [guard] at hg
+        cases l0 <;> first | rfl | cases hg
+      | ins r k first => cases first <;> rfl
+      | pack r uid => rfl
+      | cbpack r uid => rfl
+      | ret r => rfl
+      | done r => rfl
+      | fb r => rfl
+      | fe r => rfl
+
+theorem emitted_cons {s s' : Cache.St Nat} {cfg : Cache.Cfg Nat} {lab : Cache.Label Nat} (ls : List (Cache.Label Nat))
+    (hs : Cache.step cfg s lab = some s') :
+    Cache.emitted cfg s (lab :: ls) = (match lab, Cache.pending s with
+      | .pack, some m => [m]
+      | _, _ => []) ++ Cache.emitted cfg s' ls := by
+  simp only [Cache.emitted, hs]
+  split <;> simp_all
+
+/-- per rank, the messages `Cache.emitted` lists (what `pack` serialised, oldest first) are the messages `opOf uid` of
+the `Comm.async` / `Comm.runcb` labels of that rank, in order -/
+theorem emitted_projR {P : Par} {S S' : St} (jls : List Label) (h : run P S jls = some S') (r : Nat) :
+    Cache.emitted (csetCfg P.nslots) (S.k r) (projR r jls) =
+      ((sentList jls).filter (fun p => p.1 == r)).map (fun p => P.opOf p.2) := by
+  induction jls generalizing S with
+  | nil => rfl
+  | cons l jls ih =>
+    simp only [run] at h
+    cases hst : step P S l with
+    | none => rw [hst] at h; cases h
+    | some S1 =>
+      rw [hst] at h
+      have ih' := ih h
+      obtain ⟨hg, _, hk⟩ := step_some hst
+      rw [projR_cons]
+      rcases kStep_cases hk with ⟨hp, hk'⟩ | ⟨q, lab, s', hp, hs, hk'⟩
+      · rw [hp]
+        rw [hk'] at ih'
+        cases l with
+        | comm l0 => simpa [sentList] using ih'
+        | _ => cases hp
+      · rw [hp]
+        by_cases hq : q = r
+        · subst hq
+          rw [hk', upd_same] at ih'
+          simp only [if_true, List.singleton_append]
+          rw [emitted_cons _ hs, ih']
+          cases l with
+          | comm l0 => cases hp
+          | ins r' k first =>
+            simp only [projK, Option.some.injEq, Prod.mk.injEq] at hp
+            obtain ⟨rfl, rfl⟩ := hp
+            simp [sentList]
+          | pack r' uid =>
+            simp only [projK, Option.some.injEq, Prod.mk.injEq] at hp
+            obtain ⟨rfl, rfl⟩ := hp
+            simp only [guard, Bool.and_eq_true, decide_eq_true_eq, beq_iff_eq] at hg
+            simp [sentList, hg.2]
+          | cbpack r' uid =>
+            simp only [projK, Option.some.injEq, Prod.mk.injEq] at hp
+            obtain ⟨rfl, rfl⟩ := hp
+            simp only [guard, Bool.and_eq_true, decide_eq_true_eq, beq_iff_eq] at hg
+            simp [sentList, hg.1.2]
+          | ret r' =>
+            simp only [projK, Option.some.injEq, Prod.mk.injEq] at hp
+            obtain ⟨rfl, rfl⟩ := hp
+            simp [sentList]
+          | done r' =>
+            simp only [projK, Option.some.injEq, Prod.mk.injEq] at hp
+            obtain ⟨rfl, rfl⟩ := hp
+            simp [sentList]
+          | fb r' =>
+            simp only [projK, Option.some.injEq, Prod.mk.injEq] at hp
+            obtain ⟨rfl, rfl⟩ := hp
+            simp [sentList]
+          | fe r' =>
+            simp only [projK, Option.some.injEq, Prod.mk.injEq] at hp
+            obtain ⟨rfl, rfl⟩ := hp
+            simp [sentList]
+        · rw [hk', upd_other _ _ _ _ (fun e => hq e.symm)] at ih'
+          simp only [hq, if_false, List.nil_append]
+          rw [ih']
+          cases l with
+          | comm l0 => cases hp
+          | ins r' k first => simp [sentList]
+          | pack r' uid =>
+            simp only [projK, Option.some.injEq, Prod.mk.injEq] at hp
+            obtain ⟨rfl, rfl⟩ := hp
+            simp [sentList, hq]
+          | cbpack r' uid =>
+            simp only [projK, Option.some.injEq, Prod.mk.injEq] at hp
+            obtain ⟨rfl, rfl⟩ := hp
+            simp [sentList, hq]
+          | ret r' => simp [sentList]
+          | done r' => simp [sentList]
+          | fb r' => simp [sentList]
+          | fe r' => simp [sentList]
+
+/-- per rank, the contributions `Cache.received` lists are the `async_insert` calls of that rank, each with count 1 -/
+theorem received_projR (jls : List Label) (r : Nat) :
+    Cache.received (projR r jls) = ((insList jls).filter (fun p => p.1 == r)).map (fun p => (p.2, 1)) := by
+  induction jls with
+  | nil => rfl
+  | cons l jls ih =>
+    rw [projR_cons]
+    cases l with
+    | comm l0 => simpa [insList, projK] using ih
+    | ins q k first =>
+      by_cases hq : q = r
+      · subst hq
+        simp only [projK, if_true, List.singleton_append, Cache.received, ih]
+        simp [insList]
+      · simp only [projK, hq, if_false, List.nil_append, ih]
+        simp [insList, hq]
+    | pack q uid =>
+      by_cases hq : q = r <;> simp only [projK, hq, if_true, if_false, List.singleton_append, List.nil_append,
+        Cache.received, ih] <;> simp [insList]
+    | cbpack q uid =>
+      by_cases hq : q = r <;> simp only [projK, hq, if_true, if_false, List.singleton_append, List.nil_append,
+        Cache.received, ih] <;> simp [insList]
+    | ret q =>
+      by_cases hq : q = r <;> simp only [projK, hq, if_true, if_false, List.singleton_append, List.nil_append,
+        Cache.received, ih] <;> simp [insList]
+    | done q =>
+      by_cases hq : q = r <;> simp only [projK, hq, if_true, if_false, List.singleton_append, List.nil_append,
+        Cache.received, ih] <;> simp [insList]
+    | fb q =>
+      by_cases hq : q = r <;> simp only [projK, hq, if_true, if_false, List.singleton_append, List.nil_append,
+        Cache.received, ih] <;> simp [insList]
+    | fe q =>
+      by_cases hq : q = r <;> simp only [projK, hq, if_true, if_false, List.singleton_append, List.nil_append,
+        Cache.received, ih] <;> simp [insList]
+
+/-! ### the owner side -/
+
+theorem cnt_foldl (L : List (Cache.Msg Nat)) (g : Nat → Nat) (k : Nat) :
+    (L.foldl (fun st m => (cntContainer.apply st m).1) g) k = g k + Cache.ownerCount L k := by
+  induction L generalizing g with
+  | nil => simp [Cache.ownerCount]
+  | cons m L ih =>
+    rw [List.foldl_cons, ih]
+    unfold Cache.ownerCount
+    rw [Cache.msgValsOf_cons]
+    by_cases hm : m.key = k
+    · simp [cntContainer, hm]; omega
+    · simp [cntContainer, hm]
+
+theorem ownerCount_perm {l₁ l₂ : List (Cache.Msg Nat)} (h : l₁.Perm l₂) (k : Nat) :
+    Cache.ownerCount l₁ k = Cache.ownerCount l₂ k :=
+  Cache.perm_sum ((h.filter _).map _)
+
+/-- at the first return of a barrier every cache is quiet: no container call active, no callback registered, nothing
+cached — and the `Cache` model's own label `bar` ("barrier() returns on this rank") is enabled -/
+theorem caches_quiet_at_exit (P : Par) (hn : 0 < P.nslots) (jls : List Label) (S : St)
+    (hrun : run P init jls = some S) (r : Nat) (hr : r < P.n)
+    (hx : BarrierME.exitEnabled S.c.b r = true) (hne : ∀ q, q < P.n → S.c.b.epoch q ≤ S.c.b.epoch r)
+    (q : Nat) (hq : q < P.n) :
+    (S.k q).stack = [] ∧ (S.k q).reg = false ∧ Cache.quiet (S.k q) ∧
+      Cache.step (csetCfg P.nslots) (S.k q) .bar = some (S.k q) := by
+  have hC : Comm.run P.n P.nh Comm.init (jls.flatMap (projC P)) = some S.c := run_projC jls hrun
+  have hdead := BarrierME.C02ME_exit_implies_quiescent P.n S.c.b _ (Comm.run_projB _ hC) r hr hx _ rfl hne
+  have hcb : S.c.b.cbs q = 0 := (hdead.2 q hq).2.2.2
+  obtain ⟨⟨_, hj⟩, how⟩ := run_jinv jls jinv_init hrun q
+  rw [hcb] at how
+  unfold owed at how
+  have hreg : (S.k q).reg = false := by
+    cases h : (S.k q).reg with
+    | false => rfl
+    | true => rw [h] at how; simp [b2n] at how
+  have hfall : hasFall (S.k q).stack = false := by
+    cases h : hasFall (S.k q).stack with
+    | false => rfl
+    | true => rw [h] at how; simp [b2n] at how
+  have hst : (S.k q).stack = [] := by
+    cases h : (S.k q).stack with
+    | nil => rfl
+    | cons a b =>
+      rcases hj (by rw [h]; simp) with h1 | h1
+      · rw [hreg] at h1; cases h1
+      · rw [hfall] at h1; cases h1
+  have hK : Cache.run (csetCfg P.nslots) Cache.St.init (projR q jls) = some (S.k q) := run_projK jls hrun q
+  have hquiet := (Cache.barrier_leaves_nothing_cached P.nslots hn (projR q jls) (S.k q) hK hst hreg 0).1
+  refine ⟨hst, hreg, hquiet, ?_⟩
+  simp [Cache.step, hst, hreg]
+
+/-- **C15 end to end** (`ygm::container::counting_set`).  For every number of ranks, every routing function, every cache
+size, every key partitioner and every history of the PRODUCT of the joint messaging model with one count cache per
+rank — `async_insert` from main programs and from handlers at any nesting depth, evictions, overflow flushes, the
+pre-barrier flush-all callback with handlers running during its sends, any interleaving of all ranks, any number of
+barriers —: at the FIRST return of a barrier, for every key `k`,
+
+* `count(k)` on `owner k` — the value the owner's map holds in the memory induced by the history (changed only by the
+  handlers `execEnd`, each adding the count its message carries) — is exactly the NUMBER of `async_insert(k)` calls
+  issued so far on all ranks from any context;
+* no other rank holds a count for `k`;
+* the handlers executed so far are a permutation of all packed messages (none in a buffer, on the wire or cached). -/
+theorem C15_count_after_barrier (P : Par) (hn : 0 < P.nslots) (jls : List Label) (S : St)
+    (hrun : run P init jls = some S) (r : Nat) (hr : r < P.n)
+    (hx : BarrierME.exitEnabled S.c.b r = true) (hne : ∀ q, q < P.n → S.c.b.epoch q ≤ S.c.b.epoch r) (k : Nat) :
+    DistComm.memOf cntContainer P.opOf P.n P.nh (fun _ _ => 0) (jls.flatMap (projC P)) (P.owner k) k
+      = ((insList jls).filter (fun p => p.2 = k)).length ∧
+    (∀ q, q ≠ P.owner k →
+      DistComm.memOf cntContainer P.opOf P.n P.nh (fun _ _ => 0) (jls.flatMap (projC P)) q k = 0) ∧
+    (DistComm.execOps P.opOf S.c).Perm ((sentList jls).map (fun p => P.opOf p.2)) := by
+  have hC : Comm.run P.n P.nh Comm.init (jls.flatMap (projC P)) = some S.c := run_projC jls hrun
+  have hiss := issued_projC jls hrun
+  have ha : DistComm.Addressed (fun m => P.owner m.key) P.opOf (jls.flatMap (projC P)) := by
+    intro m hm
+    rw [hiss] at hm
+    obtain ⟨p, _, rfl⟩ := List.mem_map.1 hm
+    exact ⟨rfl, rfl⟩
+  have hperm := DistComm.execOps_perm_issuedOps P.opOf P.n P.nh _ S.c hC r hr hx hne
+  have hio : DistComm.issuedOps P.opOf (jls.flatMap (projC P)) = (sentList jls).map (fun p => P.opOf p.2) := by
+    unfold DistComm.issuedOps
+    rw [hiss, List.map_map]; rfl
+  rw [hio] at hperm
+  -- the induced memory of a rank, at key k
+  have hmem : ∀ q, DistComm.memOf cntContainer P.opOf P.n P.nh (fun _ _ => 0) (jls.flatMap (projC P)) q k =
+      Cache.ownerCount ((DistComm.execOps P.opOf S.c).filter (fun o => P.owner o.key = q)) k := by
+    intro q
+    unfold DistComm.memOf
+    rw [DistComm.mem_eq_execGlobal cntContainer (fun m => P.owner m.key) P.opOf P.n P.nh (fun _ _ => 0) _ S.c hC ha q,
+      Dist.execGlobal_rank, Dist.run_state_eq_foldl, cnt_foldl]
+    simp
+  -- the packed messages, rank by rank, are what the caches emitted; every cache is quiet
+  let runs := (List.range P.n).map (fun q => projR q jls)
+  have hAQ : Cache.AllQuiet P.nslots runs := by
+    intro ls hls
+    obtain ⟨q, hq, rfl⟩ := List.mem_map.1 hls
+    have hq' := List.mem_range.1 hq
+    exact ⟨S.k q, run_projK jls hrun q, (caches_quiet_at_exit P hn jls S hrun r hr hx hne q hq').2.2.1⟩
+  have hones : ∀ ls ∈ runs, Cache.AllOnes ls := by
+    intro ls hls p hp
+    obtain ⟨q, _, rfl⟩ := List.mem_map.1 hls
+    rw [received_projR] at hp
+    obtain ⟨x, _, rfl⟩ := List.mem_map.1 hp
+    rfl
+  have hcount := Cache.count_eq_number_of_inserts P.nslots runs hAQ hones k
+  obtain ⟨hri, hrs⟩ := run_ranks jls hrun
+  have hmsgs : ((sentList jls).map (fun p => P.opOf p.2)).Perm (Cache.allMsgs P.nslots runs) := by
+    have hp := DistComm.perm_flatMap_filter (fun p : Nat × Nat => p.1) (List.range P.n) (sentList jls)
+      List.nodup_range (fun p hp => List.mem_range.2 (hrs p hp))
+    have := hp.map (fun p => P.opOf p.2)
+    rw [List.map_flatMap] at this
+    refine this.trans (List.Perm.of_eq ?_)
+    unfold Cache.allMsgs
+    rw [List.flatMap_map]
+    apply DistComm.flatMap_congr_mem
+    intro q _
+    exact (emitted_projR jls hrun q).symm
+  have hins : ((insList jls).map (fun p => (p.2, 1))).Perm (Cache.allIns runs) := by
+    have hp := DistComm.perm_flatMap_filter (fun p : Nat × Nat => p.1) (List.range P.n) (insList jls)
+      List.nodup_range (fun p hp => List.mem_range.2 (hri p hp))
+    have := hp.map (fun p : Nat × Nat => (p.2, 1))
+    rw [List.map_flatMap] at this
+    refine this.trans (List.Perm.of_eq ?_)
+    unfold Cache.allIns
+    rw [List.flatMap_map]
+    apply DistComm.flatMap_congr_mem
+    intro q _
+    exact (received_projR jls q).symm
+  have hlen : (Cache.valsOf k (Cache.allIns runs)).length = ((insList jls).filter (fun p => p.2 = k)).length := by
+    rw [← (Cache.valsOf_perm k hins).length_eq]
+    unfold Cache.valsOf
+    rw [List.length_map, List.filter_map, List.length_map]
+    rfl
+  have hall : Cache.ownerCount (DistComm.execOps P.opOf S.c) k = ((insList jls).filter (fun p => p.2 = k)).length := by
+    rw [ownerCount_perm hperm k, ownerCount_perm hmsgs k, hcount, hlen]
+  refine ⟨?_, ?_, hperm⟩
+  · rw [hmem, ← hall]
+    unfold Cache.ownerCount Cache.msgValsOf
+    rw [List.filter_filter]
+    congr 2
+    apply List.filter_congr
+    intro o _
+    by_cases ho : o.key = k <;> simp [ho]
+  · intro q hq
+    rw [hmem]
+    unfold Cache.ownerCount Cache.msgValsOf
+    rw [List.filter_filter]
+    have : (DistComm.execOps P.opOf S.c).filter (fun a => decide (a.key = k) && decide (P.owner a.key = q)) = [] := by
+      apply List.filter_eq_nil_iff.2
+      intro o _
+      by_cases ho : o.key = k
+      · simp [ho]; exact fun e => hq e.symm
+      · simp [ho]
+    rw [this]; rfl
+
+/-! ### non-vacuity (C15) -/
+
+section CSetExample
+
+/-- which (key, count) each packed message carries -/
+private def csOp : Nat → Cache.Msg Nat
+  | 1 => ⟨true, 1, 1⟩
+  | 2 => ⟨true, 3, 1⟩
+  | _ => ⟨true, 3, 2⟩
+
+/-- 2 ranks, a 2-slot cache (keys 1 and 3 collide in slot 1), keys owned by `key % 2`, direct routing -/
+private def csPar : Par := { n := 2, nslots := 2, nh := fun _ d => d, owner := fun k => k % 2, opOf := csOp }
+
+private def csRound2 : List Label :=
+  [.comm (.contribute 0), .comm (.contribute 1), .comm (.result 0), .comm (.result 1)]
+
+/-- rank 0 inserts key 1 (registers the callback) and then key 3, which EVICTS key 1: the eviction's message (uid 1) is
+an `async` to rank 1.  Rank 1 inserts key 3.  Both enter the barrier.  While the handler of uid 1 runs on rank 1 (inside
+the barrier) it inserts key 3 again (a handler-context insert, combined in the cache).  The pre-barrier callbacks flush:
+rank 0 sends (3, 1) as uid 2, rank 1 sends (3, 2) to itself as uid 3. -/
+private def csDemo : List Label :=
+  [.ins 0 1 true, .done 0, .ins 0 3 false, .pack 0 1, .ret 0, .done 0, .ins 1 3 true, .done 1,
+   .comm (.enter 0), .comm (.enter 1),
+   .comm (.isend 0 1), .comm (.recvBegin 1 0 0), .comm (.execBegin 1 1), .ins 1 3 false, .done 1,
+   .comm (.execEnd 1 1), .comm (.recvEnd 1),
+   .fb 0, .cbpack 0 2, .ret 0, .fe 0, .fb 1, .cbpack 1 3, .ret 1, .fe 1,
+   .comm (.isend 0 1), .comm (.recvBegin 1 0 1), .comm (.execBegin 1 2), .comm (.execEnd 1 2), .comm (.recvEnd 1),
+   .comm (.isend 1 1), .comm (.recvBegin 1 1 0), .comm (.execBegin 1 3), .comm (.execEnd 1 3), .comm (.recvEnd 1)]
+  ++ csRound2 ++ csRound2
+
+set_option maxRecDepth 65536 in
+/-- the joint history is accepted; at its end the exit rule holds, nobody has left barrier 0, all three messages
+have executed on rank 1 and both caches are back in their initial (quiet) state -/
+example : ((run csPar init csDemo).map (fun S =>
+    (S.c.d.executed, BarrierME.exitEnabled S.c.b 0, BarrierME.exitEnabled S.c.b 1, (List.range 2).map S.c.b.epoch,
+     decide (S.k 0 = Cache.St.init), decide (S.k 1 = Cache.St.init)))) =
+    some ([(1, 1), (1, 2), (1, 3)], true, true, [0, 0], true, true) := by decide
+
+set_option maxRecDepth 65536 in
+/-- what the theorem says about it: count(3) = 3 = number of `async_insert(3)` (one on rank 0, two on rank 1, one of
+them from a handler), count(1) = 1, both on rank 1; rank 0 holds nothing -/
+example :
+    DistComm.memOf cntContainer csOp 2 (fun _ d => d) (fun _ _ => 0) (csDemo.flatMap (projC csPar)) 1 3 = 3 ∧
+    ((insList csDemo).filter (fun p => p.2 = 3)).length = 3 ∧
+    DistComm.memOf cntContainer csOp 2 (fun _ d => d) (fun _ _ => 0) (csDemo.flatMap (projC csPar)) 1 1 = 1 ∧
+    DistComm.memOf cntContainer csOp 2 (fun _ d => d) (fun _ _ => 0) (csDemo.flatMap (projC csPar)) 0 3 = 0 ∧
+    sentList csDemo = [(0, 1), (0, 2), (1, 3)] := by decide
+
+/-- the end-to-end theorem applied to the demo -/
+example (S : St) (hrun : run csPar init csDemo = some S) (hx : BarrierME.exitEnabled S.c.b 0 = true)
+    (hne : ∀ q, q < 2 → S.c.b.epoch q ≤ S.c.b.epoch 0) :
+    DistComm.memOf cntContainer csOp 2 (fun _ d => d) (fun _ _ => 0) (csDemo.flatMap (projC csPar)) 1 3
+      = ((insList csDemo).filter (fun p => p.2 = 3)).length :=
+  (C15_count_after_barrier csPar (by decide) csDemo S hrun 0 (by decide) hx hne 3).1
+
+set_option maxRecDepth 65536 in
+/-- the joint guards bite: a packed message must carry what the cache copied out (uid 2 carries (3, 1), not the evicted
+(1, 1)); the flush-all callback cannot begin while an insert is in progress; no reduction round can start while the
+flush-all loop is in progress (its continuation is a pending callback) -/
+example :
+    (run csPar init [.ins 0 1 true, .done 0, .ins 0 3 false, .pack 0 2]).isNone = true ∧
+    (run csPar init [.ins 0 1 true, .fb 0]).isNone = true ∧
+    (run csPar init [.ins 0 1 true, .done 0, .comm (.enter 0), .fb 0, .comm (.contribute 0)]).isNone = true ∧
+    (run csPar init [.ins 0 1 true, .done 0, .comm (.enter 0), .comm (.contribute 0)]).isNone = true := by decide
+
+end CSetExample
+
 end YgmVerif.CSetComm
+
+/-! ## C17 disjoint_set over the joint messaging model -/
+
+namespace YgmVerif.DSetComm
+open YgmVerif
+open YgmVerif.Barrier (upd upd_same upd_other)
+
+/-- a handler body only APPENDS to the in-flight list (what it sends) -/
+theorem handle_msgs_append (s : DSet.State) (m : DSet.Msg) : ∃ new, (DSet.handle s m).msgs = s.msgs ++ new := by
+  cases m with
+  | setp x z => exact ⟨[], by simp [DSet.handle, DSet.onSetp]⟩
+  | resolve p x k =>
+    simp only [DSet.handle, DSet.onResolve]
+    split
+    · exact ⟨[], by simp⟩
+    · split
+      · exact ⟨[], by simp⟩
+      · split
+        · refine ⟨[], ?_⟩
+          unfold DSet.increaseRank
+          split <;> simp
+        · exact ⟨[DSet.Msg.setp x (DSet.parent (DSet.visit s p) p)], by simp⟩
+  | walk ex t c op oi ork oa ob =>
+    simp only [DSet.handle, DSet.onWalk, DSet.splitChild]
+    split <;> split <;> (try split) <;> simp <;> exact ⟨_, rfl⟩
+
+theorem handle_msgs (s : DSet.State) (m : DSet.Msg) : (DSet.handle s m).msgs = s.msgs ++ sent s m := by
+  obtain ⟨new, h⟩ := handle_msgs_append s m
+  unfold sent
+  rw [h, List.drop_left]
+
+theorem flatMap_upd_perm {β : Type} (f g : Nat → List β) (r : Nat) (x : List β)
+    (hne : ∀ q, q ≠ r → g q = f q) (hr : (g r).Perm (x ++ f r)) :
+    ∀ (L : List Nat), L.Nodup → r ∈ L → (L.flatMap g).Perm (x ++ L.flatMap f) := by
+  intro L
+  induction L with
+  | nil => intro _ h; cases h
+  | cons a L ih =>
+    intro hnd hmem
+    obtain ⟨ha, hnd'⟩ := List.nodup_cons.1 hnd
+    simp only [List.flatMap_cons]
+    by_cases har : a = r
+    · subst har
+      have : L.flatMap g = L.flatMap f := by
+        apply DistComm.flatMap_congr_mem
+        intro q hq
+        exact hne q (fun e => ha (e ▸ hq))
+      rw [this, ← List.append_assoc]
+      exact List.Perm.append_right _ hr
+    · have hmem' : r ∈ L := by
+        rcases List.mem_cons.1 hmem with h | h
+        · exact absurd h.symm har
+        · exact h
+      rw [hne a har]
+      exact (List.Perm.append_left _ (ih hnd' hmem')).trans (List.perm_append_comm_assoc _ _ _)
+
+theorem map_erase_perm {α β : Type} [BEq α] [LawfulBEq α] [BEq β] [LawfulBEq β] (f : α → β) (l : List α) (a : α)
+    (h : a ∈ l) : ((l.map f).erase (f a)).Perm ((l.erase a).map f) := by
+  have h1 : (l.map f).Perm (f a :: (l.erase a).map f) := (List.perm_cons_erase h).map f
+  have h2 := h1.erase (f a)
+  rw [List.erase_cons_head] at h2
+  exact h2
+
+/-! ### the component histories are recoverable -/
+
+theorem step_some {P : Par} {S S' : St} {l : Label} (h : step P S l = some S') :
+    guard P S l = true ∧ Comm.run P.n P.nh S.c (projC P l) = some S'.c ∧
+      S'.ds = (next P S l).1 ∧ S'.fl = (next P S l).2.1 ∧ S'.outbox = (next P S l).2.2 := by
+  unfold step at h
+  split at h
+  · rename_i hg
+    split at h
+    · rename_i c' hc
+      cases h
+      exact ⟨hg, hc, rfl, rfl, rfl⟩
+    · cases h
+  · cases h
+
+/-- **a joint history is a history of the joint messaging model `Comm`** -/
+theorem run_projC {P : Par} {S S' : St} (jls : List Label) (h : run P S jls = some S') :
+    Comm.run P.n P.nh S.c (jls.flatMap (projC P)) = some S'.c := by
+  induction jls generalizing S with
+  | nil => simp only [run] at h; cases h; rfl
+  | cons l jls ih =>
+    simp only [run] at h
+    cases hst : step P S l with
+    | none => rw [hst] at h; cases h
+    | some S1 =>
+      rw [hst] at h
+      rw [List.flatMap_cons]
+      exact Comm.run_append _ _ (step_some hst).2.1 (ih h)
+
+/-- **every joint history projects to a run of the disjoint_set message system `DSet`** (a simulation: `union` is
+`DSet.Step.issue`, `begin` is `DSet.Step.deliver` of that very message, every other label leaves `DSet` where it is), and
+the ghost `issued` of `DSet` is the list of unions of the history -/
+theorem run_projDS {P : Par} {S S' : St} (jls : List Label) (h : run P S jls = some S') :
+    DSet.Steps S.ds S'.ds ∧ S'.ds.issued = (unions jls).reverse ++ S.ds.issued := by
+  induction jls generalizing S with
+  | nil => simp only [run] at h; cases h; exact ⟨DSet.Steps.refl _, rfl⟩
+  | cons l jls ih =>
+    simp only [run] at h
+    cases hst : step P S l with
+    | none => rw [hst] at h; cases h
+    | some S1 =>
+      rw [hst] at h
+      obtain ⟨i1, i2⟩ := ih h
+      have hds := (step_some hst).2.2.1
+      cases l with
+      | comm l0 =>
+        simp only [next] at hds
+        rw [hds] at i1 i2
+        exact ⟨i1, by simpa [unions] using i2⟩
+      | hsend r uid =>
+        simp only [next] at hds
+        rw [hds] at i1 i2
+        exact ⟨i1, by simpa [unions] using i2⟩
+      | union r uid ex a b =>
+        simp only [next] at hds
+        rw [hds] at i1 i2
+        refine ⟨DSet.Steps.trans (DSet.Steps.tail (DSet.Steps.refl _) (DSet.Step.issue S.ds ex a b)) i1, ?_⟩
+        rw [i2]
+        simp [unions, DSet.issue]
+      | begin r uid =>
+        simp only [next] at hds
+        rw [hds] at i1 i2
+        refine ⟨DSet.Steps.trans (DSet.Steps.tail (DSet.Steps.refl _) (DSet.Step.deliver S.ds _)) i1, ?_⟩
+        rw [i2, DSet.issued_deliver]
+        simp [unions]
+
+/-! ### what the `Comm` side does to `und` and `busy` -/
+
+theorem comm_run_single {n : Nat} {nh : Nat → Nat → Nat} {c c' : Comm.St} {l : Comm.Label}
+    (h : Comm.run n nh c [l] = some c') : Comm.step n nh c l = some c' :=
+  CSetComm.comm_run_single h
+
+theorem comm_async {n : Nat} {nh : Nat → Nat → Nat} {c c' : Comm.St} {r uid dest : Nat} {direct : Bool}
+    (h : Comm.step n nh c (.async r uid dest direct) = some c') :
+    c'.b.und = c.b.und + 1 ∧ c'.b.busy = c.b.busy := by
+  have hB := (Comm.step_some h).2.2.1
+  simp only [Comm.projB, Comm.bRun_single, BarrierME.step] at hB
+  split at hB
+  · rw [← Option.some.inj hB]; exact ⟨rfl, rfl⟩
+  · cases hB
+
+theorem comm_execBegin {n : Nat} {nh : Nat → Nat → Nat} {c c' : Comm.St} {r uid : Nat}
+    (h : Comm.step n nh c (.execBegin r uid) = some c') :
+    0 < c.b.und ∧ c'.b.und = c.b.und - 1 ∧ c'.b.busy = upd c.b.busy r true := by
+  have hB := (Comm.step_some h).2.2.1
+  simp only [Comm.projB, Comm.bRun_single, BarrierME.step] at hB
+  split at hB
+  · rename_i hc
+    rw [← Option.some.inj hB]; exact ⟨hc.2.1, rfl, rfl⟩
+  · cases hB
+
+theorem comm_allowed {n : Nat} {nh : Nat → Nat → Nat} {c c' : Comm.St} {l : Comm.Label}
+    (ha : allowed l = true) (h : Comm.step n nh c l = some c') :
+    c'.b.und = c.b.und ∧ (c'.b.busy = c.b.busy ∨ ∃ r uid, l = .execEnd r uid ∧ c'.b.busy = upd c.b.busy r false) := by
+  have hB := (Comm.step_some h).2.2.1
+  cases l with
+  | async r uid dest direct => cases ha
+  | runcb r msgs j => cases ha
+  | execBegin r uid => cases ha
+  | isend r hop => simp only [Comm.projB, BarrierME.run] at hB; rw [← Option.some.inj hB]; exact ⟨rfl, Or.inl rfl⟩
+  | recvBegin r src seq =>
+    simp only [Comm.projB, BarrierME.run] at hB; rw [← Option.some.inj hB]; exact ⟨rfl, Or.inl rfl⟩
+  | fwd r uid => simp only [Comm.projB, BarrierME.run] at hB; rw [← Option.some.inj hB]; exact ⟨rfl, Or.inl rfl⟩
+  | recvEnd r => simp only [Comm.projB, BarrierME.run] at hB; rw [← Option.some.inj hB]; exact ⟨rfl, Or.inl rfl⟩
+  | execEnd r uid =>
+    simp only [Comm.projB, Comm.bRun_single, BarrierME.step] at hB
+    split at hB
+    · rw [← Option.some.inj hB]; exact ⟨rfl, Or.inr ⟨r, uid, rfl, rfl⟩⟩
+    · cases hB
+  | regcb r =>
+    simp only [Comm.projB, Comm.bRun_single, BarrierME.step] at hB
+    split at hB
+    · rw [← Option.some.inj hB]; exact ⟨rfl, Or.inl rfl⟩
+    · cases hB
+  | enter r =>
+    simp only [Comm.projB, Comm.bRun_single, BarrierME.step] at hB
+    split at hB
+    · rw [← Option.some.inj hB]; exact ⟨rfl, Or.inl rfl⟩
+    · cases hB
+  | contribute r =>
+    simp only [Comm.projB, Comm.bRun_single, BarrierME.step] at hB
+    split at hB
+    · rw [← Option.some.inj hB]; exact ⟨rfl, Or.inl rfl⟩
+    · cases hB
+  | result r =>
+    simp only [Comm.projB, Comm.bRun_single, BarrierME.step] at hB
+    split at hB
+    · rw [← Option.some.inj hB]; exact ⟨rfl, Or.inl rfl⟩
+    · cases hB
+  | exit r =>
+    simp only [Comm.projB, Comm.bRun_single, BarrierME.step] at hB
+    split at hB
+    · rw [← Option.some.inj hB]; exact ⟨rfl, Or.inl rfl⟩
+    · cases hB
+
+/-! ### the linking invariant: DSet's in-flight multiset is Comm's -/
+
+/-- `DSet`'s in-flight list is, as a multiset, the messages of the uids issued in `Comm` whose handler has not started
+together with what the running handlers still have to send; the number of the former is `BarrierME`'s `und`; a rank that
+runs no handler has nothing left to send -/
+def JInv (P : Par) (S : St) : Prop :=
+  S.ds.msgs.Perm (S.fl.map P.opOf ++ (List.range P.n).flatMap S.outbox) ∧
+  S.fl.length = S.c.b.und ∧
+  ∀ q, S.c.b.busy q = false → S.outbox q = []
+
+theorem jinv_init (P : Par) : JInv P init := by
+  refine ⟨?_, rfl, fun _ _ => rfl⟩
+  show ([] : List DSet.Msg).Perm ([] ++ (List.range P.n).flatMap (fun _ => []))
+  simp
+
+theorem step_jinv {P : Par} {S S' : St} {l : Label} (hi : JInv P S) (h : step P S l = some S') : JInv P S' := by
+  obtain ⟨hg, hc, hds, hfl, hob⟩ := step_some h
+  obtain ⟨ia, ib, ic⟩ := hi
+  cases l with
+  | comm l0 =>
+    simp only [next] at hds hfl hob
+    simp only [guard, Bool.and_eq_true] at hg
+    obtain ⟨hu, hb⟩ := comm_allowed hg.1 (comm_run_single hc)
+    refine ⟨by rw [hds, hfl, hob]; exact ia, by rw [hfl, hu]; exact ib, ?_⟩
+    intro q hq
+    rw [hob]
+    rcases hb with hb | ⟨r, uid, rfl, hb⟩
+    · rw [hb] at hq; exact ic q hq
+    · by_cases hqr : q = r
+      · subst hqr
+        have := hg.2
+        simpa using this
+      · rw [hb, upd_other _ _ _ _ hqr] at hq; exact ic q hq
+  | union r uid ex a b =>
+    simp only [next] at hds hfl hob
+    simp only [guard, Bool.and_eq_true, decide_eq_true_eq, beq_iff_eq] at hg
+    obtain ⟨hu, hb⟩ := comm_async (comm_run_single hc)
+    refine ⟨?_, by rw [hfl, hu, List.length_append, ib]; rfl, fun q hq => by rw [hob]; rw [hb] at hq; exact ic q hq⟩
+    rw [hds, hfl, hob]
+    show (S.ds.msgs ++ [DSet.Msg.walk ex a a b b (-1) a b]).Perm _
+    rw [← hg.2, List.map_append, List.map_singleton, List.append_assoc]
+    refine (List.Perm.append_right _ ia).trans ?_
+    rw [List.append_assoc]
+    exact List.Perm.append_left _ List.perm_append_comm
+  | hsend r uid =>
+    simp only [next] at hds hfl hob
+    simp only [guard, Bool.and_eq_true, decide_eq_true_eq, beq_iff_eq] at hg
+    obtain ⟨hu, hb⟩ := comm_async (comm_run_single hc)
+    have hcons : S.outbox r = P.opOf uid :: (S.outbox r).tail := by
+      cases ho : S.outbox r with
+      | nil => rw [ho] at hg; simp at hg
+      | cons x xs => rw [ho] at hg; simp at hg; rw [hg.2]; rfl
+    refine ⟨?_, by rw [hfl, hu, List.length_append, ib]; rfl, ?_⟩
+    · rw [hds, hfl, hob, List.map_append, List.map_singleton, List.append_assoc]
+      refine ia.trans (List.Perm.append_left _ ?_)
+      apply flatMap_upd_perm (upd S.outbox r (S.outbox r).tail) S.outbox r [P.opOf uid]
+      · intro q hq; rw [upd_other _ _ _ _ hq]
+      · rw [upd_same]; exact List.Perm.of_eq hcons
+      · exact List.nodup_range
+      · exact List.mem_range.2 hg.1
+    · intro q hq
+      rw [hb] at hq
+      rw [hob]
+      by_cases hqr : q = r
+      · subst hqr
+        rw [upd_same, ic q hq]; rfl
+      · rw [upd_other _ _ _ _ hqr]; exact ic q hq
+  | begin r uid =>
+    simp only [next] at hds hfl hob
+    simp only [guard, Bool.and_eq_true, decide_eq_true_eq, List.contains_iff_mem] at hg
+    obtain ⟨⟨hrn, hmemfl⟩, hmemm⟩ := hg
+    obtain ⟨hpos, hu, hb⟩ := comm_execBegin (comm_run_single hc)
+    have hlt : S.ds.msgs.idxOf (P.opOf uid) < S.ds.msgs.length := List.idxOf_lt_length_of_mem hmemm
+    have hget : S.ds.msgs[S.ds.msgs.idxOf (P.opOf uid)]? = some (P.opOf uid) := by
+      rw [List.getElem?_eq_getElem hlt, List.getElem_idxOf hlt]
+    have hmsgs : S'.ds.msgs = S.ds.msgs.erase (P.opOf uid) ++
+        sent { S.ds with msgs := S.ds.msgs.eraseIdx (S.ds.msgs.idxOf (P.opOf uid)) } (P.opOf uid) := by
+      rw [hds]
+      unfold DSet.deliver
+      rw [hget]
+      simp only
+      rw [handle_msgs, List.erase_eq_eraseIdx_of_idxOf rfl]
+    refine ⟨?_, ?_, ?_⟩
+    · rw [hmsgs, hfl, hob]
+      have h1 : (S.ds.msgs.erase (P.opOf uid)).Perm
+          ((S.fl.erase uid).map P.opOf ++ (List.range P.n).flatMap S.outbox) := by
+        have := ia.erase (P.opOf uid)
+        rw [List.erase_append_left _ (List.mem_map.2 ⟨uid, hmemfl, rfl⟩)] at this
+        exact this.trans (List.Perm.append_right _ (map_erase_perm P.opOf S.fl uid hmemfl))
+      have h2 := flatMap_upd_perm S.outbox (upd S.outbox r (S.outbox r ++
+          sent { S.ds with msgs := S.ds.msgs.eraseIdx (S.ds.msgs.idxOf (P.opOf uid)) } (P.opOf uid))) r
+          (sent { S.ds with msgs := S.ds.msgs.eraseIdx (S.ds.msgs.idxOf (P.opOf uid)) } (P.opOf uid))
+          (fun q hq => by rw [upd_other _ _ _ _ hq]) (by rw [upd_same]; exact List.perm_append_comm)
+          (List.range P.n) List.nodup_range (List.mem_range.2 hrn)
+      refine (List.Perm.append_right _ h1).trans ?_
+      rw [List.append_assoc]
+      refine List.Perm.append_left _ ?_
+      exact List.perm_append_comm.trans h2.symm
+    · rw [hfl, hu, List.length_erase_of_mem hmemfl, ib]
+    · intro q hq
+      rw [hob]
+      rw [hb] at hq
+      by_cases hqr : q = r
+      · subst hqr; rw [upd_same] at hq; cases hq
+      · rw [upd_other _ _ _ _ hqr] at hq ⊢; exact ic q hq
+
+theorem run_jinv {P : Par} {S S' : St} (jls : List Label) (hi : JInv P S) (h : run P S jls = some S') :
+    JInv P S' := by
+  induction jls generalizing S with
+  | nil => simp only [run] at h; cases h; exact hi
+  | cons l jls ih =>
+    simp only [run] at h
+    cases hst : step P S l with
+    | none => rw [hst] at h; cases h
+    | some S1 => rw [hst] at h; exact ih (step_jinv hi hst) h
+
+/-- **C17 end to end** (`ygm::container::disjoint_set`).  For every number of ranks, every routing function, every item
+partitioner and every history of the PRODUCT of the joint messaging model with the disjoint_set message system —
+`async_union` / `async_union_and_execute` from any rank, every handler (`simul_parent_walk_functor`,
+`update_parent_lambda`, `resolve_merge_lambda`) running between `execBegin` and `execEnd` of its message and issuing its
+own messages as `async`s, any interleaving, any number of barriers —: at the FIRST return of a barrier
+
+* nothing of the disjoint_set is in flight (`DSet`'s quiescence, the hypothesis `hq` of `DSet.complete` /
+  `DSet.connectivity`, is DERIVED from the barrier);
+* the state is a reachable state of `DSet` (so every theorem of `Props/C17.lean` applies), no assertion fired;
+* two items have the same representative IFF they are connected by the unions issued so far. -/
+theorem C17_connectivity_after_barrier (P : Par) (jls : List Label) (S : St)
+    (hrun : run P init jls = some S) (r : Nat) (hr : r < P.n)
+    (hx : BarrierME.exitEnabled S.c.b r = true) (hne : ∀ q, q < P.n → S.c.b.epoch q ≤ S.c.b.epoch r) :
+    S.ds.msgs = [] ∧ DSet.Reach S.ds ∧ S.ds.aborted = false ∧ S.ds.issued = (unions jls).reverse ∧
+    (∀ x y, DSet.root S.ds x = DSet.root S.ds y ↔ DSet.Conn (unions jls).reverse x y) ∧
+    (∀ x y, DSet.Conn (unions jls).reverse x y → DSet.sameTree S.ds x y) := by
+  have hC : Comm.run P.n P.nh Comm.init (jls.flatMap (projC P)) = some S.c := run_projC jls hrun
+  have hdead := BarrierME.C02ME_exit_implies_quiescent P.n S.c.b _ (Comm.run_projB _ hC) r hr hx _ rfl hne
+  obtain ⟨ia, ib, ic⟩ := run_jinv jls (jinv_init P) hrun
+  obtain ⟨hsteps, hiss⟩ := run_projDS jls hrun
+  have hreach : DSet.Reach S.ds := hsteps
+  have hfl : S.fl = [] := List.eq_nil_of_length_eq_zero (by rw [ib]; exact hdead.1)
+  have hob : (List.range P.n).flatMap S.outbox = [] := by
+    apply List.flatMap_eq_nil_iff.2
+    intro q hq
+    exact ic q (hdead.2 q (List.mem_range.1 hq)).2.2.1
+  have hq : S.ds.msgs = [] := by
+    rw [hfl, hob] at ia
+    exact List.Perm.eq_nil ia
+  have hiss' : S.ds.issued = (unions jls).reverse := by rw [hiss]; simp [init, DSet.init]
+  refine ⟨hq, hreach, DSet.no_abort hreach, hiss', ?_, ?_⟩
+  · intro x y
+    rw [← hiss']
+    exact DSet.connectivity hreach hq x y
+  · intro x y hxy
+    rw [← hiss'] at hxy
+    exact DSet.complete hreach hq hxy
+
+end YgmVerif.DSetComm
